@@ -350,6 +350,8 @@ def wl_refused(ctx, rng, i):
     ctx.nontrivial("refusal", "inf")
 
 
+# pure by their documentation: a sample of the calls is repeated in a fresh interpreter, in reverse order (stixmon/echo.py)
+ECHO = ['stix2.canonicalization.Canonicalize:canonicalize']
 WORKLOADS = [
     Workload("doubles", wl_doubles, quick=320, thorough=40000),
     Workload("integers", wl_ints, quick=12, thorough=2000),
@@ -381,7 +383,7 @@ MANIFEST = {
     "text": ("Every canonicalize() call on tens of thousands (quick) to millions (thorough) of generated doubles, big "
              "integers and hostile documents is compared byte-for-byte with an independent RFC 8785 implementation, and "
              "the order-independence / parse-back / fixed-point / refusal clauses are checked on the same executions. "
-             "Exploration, not proof: it covers every exponent range and layout branch, not every double."),
+             "Exploration, not proof: it covers every exponent range and layout branch, not every double. Echo monitor: a sample of the canonicalize calls is repeated in a fresh interpreter in reverse order and must answer alike."),
     "note": "trusts stixmon/oracles/jcs.py (validated against the RFC 8785 appendix vectors) and CPython's correctly rounded '%.Ne' formatting",
-    "technique": "runtime monitoring: differential oracle (independent RFC 8785 canonicaliser) on every call/return",
+    "technique": "runtime monitoring: differential oracle (independent RFC 8785 canonicaliser) on every call/return; echo monitor (pure calls repeated in a fresh interpreter)",
 }
